@@ -9,13 +9,13 @@ TB = ["modelled, not verified: BLAKE3 as in C01; the textbook scan is Model/Delt
 def run(prop, tier, seed, replay):
     v = vlib.Verdict(prop, tier, seed)
     st = common.front(v, prop)
-    res = common.correspondence(v, st, prop, "c16", "cdelta", tier, seed, replay,
+    res = common.correspondence(v, st, prop, "c16", "cdelta", tier, seed, replay, canary_kind="cdelta",
                                 model_desc="Model/Delta.v", impl_desc="CopiaSync::delta / AsyncCopiaSync::delta")
     common.verdict(v, st, prop, res)
     common.proof_coverage(v, st, prop, TB)
     v.coverage.update(dict(
         evaluations=res["evals"], distinct_nontrivial=res["distinct"],
         rule="same generator family as C01 (own salt); oracle on the implementation: literal bytes <= textbook greedy (Rust HashSet implementation), identical source => literal bytes < block size; model vs implementation deltas compared op-for-op (so literal counts are equal to the proved greedy count). distinct_nontrivial = distinct deltas with both a copy and a literal.",
-        samples=res["samples"] or ["(none)"], distribution=res["stats"], disagreements=res["dis"]))
+        canary=res.get("canary", {}), samples=res["samples"] or ["(none)"], distribution=res["stats"], disagreements=res["dis"]))
     v.assumptions = TB
     return v.finish()
